@@ -7,3 +7,5 @@ pub mod c09;
 pub mod c02;
 pub mod c11;
 pub mod c18;
+#[cfg(any(feature = "tlsnative", feature = "tlsrustls"))]
+pub mod c12;
